@@ -105,6 +105,28 @@ theorem elision_fixed (cfg : PrinterCfg) (hB : cfg.fixB = true) (g : Grammar) (r
   · exact hd
   · simp [hd] at h
 
+/-- **netsubs_is_print.**  Since fix 8b2a96c `Cpt._netsubs()` (no substitution) prints through `_netmake1`: the
+    second printer of the library IS the first one, so every print → parse theorem (`line_roundtrip*`,
+    `netlist_roundtrip`, idempotence) holds for `subs` / `rename_nodes` output as well -- and it inherits
+    exactly the printer's known findings, no others. -/
+theorem netsubs_is_print (cfg : PrinterCfg) (g : Grammar) (c : Cpt) : netSubs true cfg g c = printCptC cfg g c := by
+  simp [netSubs]
+
+/-- the checked-out source delegates (extracted by the translator; breaks if `_netsubs` gets its own loop again) -/
+theorem netsubs_delegates_in_source : Gen.Grammar.netsubsDelegates = true := by decide
+
+/-- what was wrong with the legacy loop (kept as a regression statement): a keyword at position 0 was
+    written after the nodes, and an undefined non-final argument was dropped -/
+example : (netSubs false ⟨false, false, false⟩ theGrammar
+      { classname := "SPpp".toList, name := "SP1".toList, ctype := "SP".toList, cid := "1".toList,
+        nodes := ["1".toList, "2".toList, "3".toList], args := [], kwpos := some 0, kw := "pp".toList, opts := [], string := [] })
+      = some "SP1 1 2 3 pp".toList
+    ∧ (netSubs false ⟨false, false, false⟩ theGrammar
+      { classname := "Vac".toList, name := "V1".toList, ctype := "V".toList, cid := "1".toList,
+        nodes := ["1".toList, "0".toList], args := [some "V1".toList, none, some "3".toList], kwpos := some 2, kw := "ac".toList,
+        opts := [], string := [] })
+      = some "V1 1 0 ac V1 3".toList := by decide +kernel
+
 /-- **fixes_change_nothing_else.**  On every value inside the hypotheses of the existing theorems (`okValue`,
     no `=`, not spelt like a keyword) all repairs print exactly what the current code prints. -/
 theorem fixes_change_nothing_else (cfg : PrinterCfg) (ds : List Char) (kws : List Str) (v : Str)
